@@ -77,3 +77,32 @@ Proof.
   vm_compute in E4. injection E4 as <-. specialize (R4 ltac:(kfd)).
   eexists. split; [exact R4 | vm_compute; reflexivity].
 Qed.
+
+(* ---------- the first formulation (C02_Reach.Reachable, HostWf alone) is false ---------- *)
+(* a Host::parse that returns the empty host for the non-empty text "x" (url::Host never does: it fails with
+   EmptyHost) meets HostWf; with it set_host(Some "x") on "http://h:81/" - a call outside known_step, whose
+   argument is not empty - stores the empty host in front of the port: "http://:81/" is not wf_b *)
+Definition bad_hp2 (s : list N) : result host := if list_eqb s (B "x") then Ok (HDomain []) else ex_hp s.
+
+Lemma bad_hp2_wf : HostWf bad_hp2 ex_hp ex_hd.
+Proof.
+  destruct ex_host_wf as (A & B0 & C). split; [|split; [exact B0 | exact C]].
+  intros s h H Hne. unfold bad_hp2 in H. destruct (list_eqb s (B "x")); [inversion H; subst; contradiction | exact (A s h H Hne)].
+Qed.
+
+Lemma full_statement_witness : exists u, Reachable true bad_hp2 ex_hp ex_hd u /\ wf_b u = false.
+Proof.
+  destruct (parse_url true bad_hp2 ex_hp ex_hd None None (B "http://h:81/")) as [u0| |] eqn:E0;
+    [|vm_compute in E0; discriminate ..].
+  assert (Known_file_drive u0 = false -> Reachable true bad_hp2 ex_hp ex_hd u0) as R0
+    by (apply (R_parse true bad_hp2 ex_hp ex_hd None (B "http://h:81/") u0); [usv_tac | exact E0]).
+  vm_compute in E0. injection E0 as <-. specialize (R0 ltac:(kfd)).
+  match type of R0 with Reachable ?d ?hp ?hpo ?hd ?u =>
+    destruct (apply_op d hp hpo hd u (OSetHost (Some (B "x")))) as [u1|] eqn:E1; [|vm_compute in E1; discriminate];
+    assert (Known_file_drive u1 = false -> Reachable d hp hpo hd u1) as R1
+      by (apply (R_step d hp hpo hd u (OSetHost (Some (B "x"))) u1 R0);
+          [cbn [op_args_ok usv_opt]; usv_tac | vm_compute; reflexivity | exact E1])
+  end.
+  vm_compute in E1. injection E1 as <-. specialize (R1 ltac:(kfd)).
+  eexists. split; [exact R1 | vm_compute; reflexivity].
+Qed.
